@@ -9,7 +9,7 @@ from spacepackets.cfdp.pdu.file_directive import (
     DirectiveType,
     AbstractFileDirectiveBase,
 )
-from spacepackets.cfdp.defs import ConditionCode, CrcFlag, Direction
+from spacepackets.cfdp.defs import ConditionCode, CrcFlag, Direction, LargeFileFlag
 from spacepackets.cfdp.conf import PduConfig
 from spacepackets.cfdp.tlv.tlv import EntityIdTlv
 from spacepackets.crc import CRC16_CCITT_FUNC
@@ -75,6 +75,17 @@ class EofPdu(AbstractFileDirectiveBase):
     @property
     def packet_len(self) -> int:
         return self.pdu_file_directive.packet_len
+
+    @property
+    def file_flag(self):
+        return self.pdu_file_directive.file_flag
+
+    @file_flag.setter
+    def file_flag(self, file_flag: LargeFileFlag):
+        """Set the file size. This changes the length of the packet when packed as well
+        which is handled by this function"""
+        self.pdu_file_directive.file_flag = file_flag
+        self._calculate_directive_param_field_len()
 
     @property
     def fault_location(self):
